@@ -8,6 +8,7 @@ matching clauses in program order; the real `ClauseIndex.find` is compared with 
 monitored at run time during every engine run."""
 import json
 import re
+import time
 
 from lib import Infra, REPO
 import sld_util as U
@@ -357,6 +358,9 @@ def run(ctx):
     def flush():
         outs = drv.run([lean_line(prog, q) for (_, prog, q, _) in pending])
         for (family, prog, q, sld), out in zip(pending, outs):
+            if time.time() - ctx.t0 > ctx.budget(75, 700):
+                ctx.count("%s:not-run-wall-clock-cap" % family)
+                continue
             process(family, prog, q, sld, parse_lean(out))
         del pending[:]
 
@@ -418,7 +422,7 @@ def run(ctx):
     else:
         # ---- findall family
         rng = ctx.sub_rng("findall")
-        for _ in range(ctx.budget(450, 12000)):
+        for _ in range(ctx.budget(450, 3000)):
             prog, q = U.gen_findall_program(rng)
             handle("findall", prog, q)
         # the pinned witness of the ClauseIndex defect (DESIGN §9)
@@ -432,7 +436,7 @@ def run(ctx):
         handle("findall", wprog2, U.F('q', U.V(0)))
         # ---- structural recursion
         rng = ctx.sub_rng("struct")
-        for _ in range(ctx.budget(120, 3000)):
+        for _ in range(ctx.budget(120, 800)):
             prog, q = U.gen_struct_program(rng)
             if rng.random() < 0.3:
                 nv = max(U.term_vars(q) + [-1]) + 1
@@ -450,7 +454,7 @@ def run(ctx):
     if not ctx.replay_in:
         rng = ctx.sub_rng("tabled")
         tcases = []
-        for _ in range(ctx.budget(150, 4000)):
+        for _ in range(ctx.budget(150, 1000)):
             prog, queries = U.gen_tabled_program(rng)
             try:
                 model = U.bottom_up(prog)
@@ -461,6 +465,9 @@ def run(ctx):
         touts = drv.run(["bottomup 400 60 %s" % U.sx_program(prog) for prog, _, _ in tcases])
         text = ""
         for (prog, queries, model), out in zip(tcases, touts):
+            if time.time() - ctx.t0 > ctx.budget(90, 900):
+                ctx.count("tabled:not-run-wall-clock-cap")
+                continue
             text = U.pl_program(prog)
             if out == "none":
                 ctx.count("tabled:lean-no-answer")
@@ -516,7 +523,7 @@ def run(ctx):
     # ---- ClauseIndex.find: real vs spec vs Lean model
     rng = ctx.sub_rng("index")
     if index_cases is None:
-        index_cases = [U.gen_index_case(rng) for _ in range(ctx.budget(400, 10000))]
+        index_cases = [U.gen_index_case(rng) for _ in range(ctx.budget(400, 4000))]
         index_cases.append((2, [(U.V(0), '1'), ('a', '2'), ('b', '3'), (U.V(0), '4')], [('a', U.V(1)), ('a', U.V(1)), ('b', U.V(0))]))
     idx_fail = None
     idx_diff = None
@@ -557,7 +564,6 @@ def run(ctx):
         ctx.disagree("ClauseIndex model vs problog.clausedb.ClauseIndex.find", str(idx_diff))
 
     # ---- report failures (shrunk), most specific first
-    import time
     shrink_deadline = time.time() + ctx.budget(20, 120)
     reported = set()
     for what, sig, family, prog, q in fails:
